@@ -290,7 +290,7 @@ func (ref *FileEnt) Read(ctx context.Context, p []byte,
 	defer ref.Unlock()
 
 	n := int64(len(ref.Data))
-	if offset > n {
+	if offset < 0 || offset > n {
 		return 0, io.EOF
 	}
 	m := int64(len(p))
@@ -311,7 +311,7 @@ func (ref *FileEnt) Write(ctx context.Context, p []byte,
 	defer ref.Unlock()
 
 	n := int64(len(ref.Data))
-	if offset > n {
+	if offset < 0 || offset > n {
 		return 0, p9p.MessageRerror{Ename: "invalid address"}
 	}
 	ref.Info.Qid.Version++
